@@ -63,6 +63,14 @@ def articulation_points[S](
         return Result(set(), 0, 0, n)
 
     node_set = set(node_list)
+    # Undirected graph: u and v are adjacent if either lists the other (as in kcore and louvain)
+    adj: dict[S, dict[S, None]] = {v: {} for v in node_list}
+    for v in node_list:
+        for w in neighbors(v):
+            if w in node_set and w != v:
+                adj[v][w] = None
+                adj[w][v] = None
+
     discovery: dict[S, int] = {}
     low: dict[S, int] = {}
     parent: dict[S, S | None] = {}
@@ -79,10 +87,7 @@ def articulation_points[S](
         low[v] = time[0]
         time[0] += 1
 
-        for w in neighbors(v):
-            if w not in node_set:
-                continue
-
+        for w in adj[v]:
             if w not in discovery:
                 children += 1
                 parent[w] = v
@@ -126,6 +131,14 @@ def bridges[S](
         return Result([], 0, 0, n)
 
     node_set = set(node_list)
+    # Undirected graph: u and v are adjacent if either lists the other (as in kcore and louvain)
+    adj: dict[S, dict[S, None]] = {v: {} for v in node_list}
+    for v in node_list:
+        for w in neighbors(v):
+            if w in node_set and w != v:
+                adj[v][w] = None
+                adj[w][v] = None
+
     discovery: dict[S, int] = {}
     low: dict[S, int] = {}
     parent: dict[S, S | None] = {}
@@ -141,10 +154,7 @@ def bridges[S](
         low[v] = time[0]
         time[0] += 1
 
-        for w in neighbors(v):
-            if w not in node_set:
-                continue
-
+        for w in adj[v]:
             if w not in discovery:
                 parent[w] = v
                 dfs(w)
